@@ -10,7 +10,7 @@ from ..core import Sub
 PROP = {
     "id": "C02",
     "level": "exploration",
-    "technique": "Hypothesis-generated block specs and nested items: nBytes vs len(encoding) vs bytes consumed by decode (sentinel tail) vs size computed by the independent reference encoder; BTS capture entries; container entry sizes",
+    "technique": "Hypothesis-generated block specs and nested items: nBytes vs len(encoding) vs bytes consumed by decode (sentinel tail) vs size computed by the independent reference encoder; BTS capture entries; container entry sizes; enumerated sub-checks: counts on 2^k boundaries, gaps given as numpy MaskedArrays, files with undecodable blocks read in every order inside one context",
     "level_text": ("Exploration: three-way agreement (declared size, bytes written, bytes consumed) plus a fourth independent opinion "
                    "(reftdf's size for the same spec) over generated blocks of all nine types, over every nested item class on its "
                    "own, over the eight blocks of the BTS capture against the jump-table sizes, and over files written by add_block."),
